@@ -6,6 +6,17 @@ PENDING = "check not built yet in this round (specification and driver in progre
 
 # id -> (level text, level note, technique, design ref)
 BUILT = {
+ "C09": ("Predict.tla constructs, for every experiment shape (2 samples, 3 treatments + control in either or both positions, "
+         "arity 1 and 2, embedding sizes 1..3, both shipped sample types), the term the documented model assigns to mean, "
+         "viability and variance; TLC checks on the terms that only the experiment's own sample and non-control treatments are "
+         "read, swap symmetry and control neutrality, and exports them; every shape is evaluated on random (also extreme) "
+         "parameter values against the real predict_* (1e-9 of the term's magnitude); purity and row-wise independence are "
+         "decided by the Functional monitor (TraceFunctional): the same (sample, treatments) must predict bit-identically on the "
+         "whole screen, every plate view, random subsets and row permutations, and the sample's and screen's digests must not "
+         "change; stacked/averaged helpers checked row by row.",
+         "IEEE double evaluation of terms (harness/terms.py) is trusted; tolerance 1e-9 x magnitude.",
+         "TLA+ term construction + TLC structural invariants; spec->code evaluation of exported terms; trace validation with a memo-table monitor",
+         "5/C09"),
  "C11": ("Retro.tla states conservation (generators keep every experiment, smoothers keep a sub-collection, nothing invented, "
          "altered or duplicated), pass-through of the observed part and the hold-out partition with ceil(fraction*size) per "
          "unobserved plate as relations between input and output screens; TLC explores generative transcriptions of two "
